@@ -351,6 +351,9 @@ func prop(c Case) (o pbt.Outcome) {
 			p := make([]byte, w)
 			e2e.PRFFill(key, off, p)
 			n, err := conn.Write(p)
+			for i := range p { // the caller re-uses its buffer (net.Conn: Write must not retain p)
+				p[i] = 0xA5
+			}
 			off += int64(n)
 			if err != nil {
 				writeErr = err
